@@ -1,5 +1,5 @@
 """C01 — generated hashes are those of the ssdeep 2.14.1 algorithm: the step relation, clause by clause (not the closed form)."""
-from ..rules import data, fold, rolling, engine, piece, generator as gen, blocksize, casts, summary
+from ..rules import data, fold, rolling, engine, piece, generator as gen, blocksize, casts, summary, beliefs
 
 EXPL = ("Byte-exact agreement with ssdeep over all inputs is a statement about values; what is decided here is that every STEP of the "
         "generator's state machine is the step ssdeep's fuzzy.c defines, each step being loop-free code whose effect is read off the "
@@ -48,6 +48,8 @@ def run(ctx):
         ctx.guard("C01", "digest-last", lambda: piece.digest_last_piece(ctx, prog))
         ctx.guard("C01", "summaries", lambda: summary.check(ctx, prog, 'internals::generate::(hashes::|BlockHashContext|Generator::(new|guessed_preferred_max_input_size_at)$)', floor=2))
         ctx.guard("C01", "path summaries", lambda: summary.check_paths(ctx, prog, 'internals::generate::(hashes::|BlockHashContext|Generator::(new|guessed_preferred_max_input_size_at)$)', floor=0))
+        if c in ("dbg", "unsafe_dbg", "strict_dbg"):
+            ctx.guard("C01", "beliefs", lambda: beliefs.census(ctx, prog, beliefs.SCOPES["C01"][0], floor=beliefs.SCOPES["C01"][1]))
         ctx.guard("C01", "casts", lambda: casts.census(ctx, prog, scope='internals::generate::', floor=3))
         if c.startswith("unsafe"):
             ctx.guard("C01", "mirror", lambda: engine.mirror(ctx, prog))
